@@ -138,7 +138,7 @@ def generate(seed, run, tier):
     rs = stream_rng(seed, ID, run, "swarm")
     rq = stream_rng(seed, ID, run, "sched")
     nh = rs.choice([1, 1, 2, 3])
-    nsteps = rs.choice([3, 6, 12, 20])
+    nsteps = rs.choice([3, 6, 12, 20] if tier == "quick" else [3, 6, 12, 20, 40])
     w_new = rs.choice([1, 2, 4])
     w_set = rs.choice([2, 4, 8])
     w_read = rs.choice([0, 1])
